@@ -43,6 +43,14 @@ def rationalise(f):
     if r is None:
         ex = Fraction(f); sm = ex.limit_denominator(1000)
         r = sm if float(sm) == f else ex
+        if r is ex and f > 0:
+            # nearest double to the square root of a small rational (std::sqrt(3) folded by the compiler): keep it as that square root
+            sq = (ex * ex).limit_denominator(100)
+            if sq > 0 and math.sqrt(sq) == f:
+                rn = math.isqrt(sq.numerator); rd = math.isqrt(sq.denominator)
+                if not (rn * rn == sq.numerator and rd * rd == sq.denominator):
+                    import z3 as _z3
+                    r = _z3.Function('sqrt', _z3.RealSort(), _z3.RealSort())(_z3.RealVal(sq))
         _RAT[f] = r
     return r
 
